@@ -14,6 +14,11 @@ let register (reg : string -> (Sx.t list -> Sx.t) -> unit) =
         put_list (put_pair put_str (put_list (put_pair put_str put_n)))
           (mp_le_samples (get_bool acc) (get_list (get_pair get_str (get_list (get_pair get_fclass get_n))) sets))
     | _ -> bad "mple");
+  reg "histle" (fun a -> match a with
+    | [src; counts] ->
+        put_res (put_list (put_pair put_str put_n))
+          (hist_le_samples (fun (c : fclass) -> c) (get_list get_fclass src) (get_list get_n counts))
+    | _ -> bad "histle");
   reg "denote" (fun a -> match a with
     | [s] -> put_opt (put_pair put_bool (put_pair put_n put_z)) (denote_signed (get_str s))
     | _ -> bad "denote")
